@@ -111,6 +111,14 @@ def shard(mon, tier, rng, shard_no, nshards):
     mine = grid[shard_no::nshards]
     extra = np.round(rng.uniform(0.05, 179.95, size=40 if tier == "quick" else 400), 4)
     tiny = [0.005, 0.02, 179.995] if shard_no == 0 else []  # the ends of the open interval (0, 180)
+    if shard_no == 2 % nshards:
+        # cones that are almost, but not quite, the same, built one after another in one process (anything memoised on an
+        # approximate comparison of W returns the earlier cone's constants — seeded/U04): thin cones, where alpha = sin(theta)
+        # changes by tens of percent while W moves by 1e-6, and pairs 2e-4 degrees apart elsewhere
+        tiny = tiny + [0.003, 0.002, 0.0031, 0.0025, 0.00305]
+        for th0 in np.round(rng.uniform(0.01, 179.9, size=6), 3):
+            tiny = tiny + [float(th0), float(th0) + 2e-4, float(th0) + 1e-4]
+        mon.count("near_identical_cone_sweeps")
     if shard_no == 1 % nshards:
         # witnesses of D12 (SLSQP broke down silently on these cones; found by the thorough tier, seed 1)
         tiny = tiny + [108.846, 73.3121, 105.4614, 153.9907]
